@@ -1,4 +1,4 @@
-import OpusProofs.EncSkelRanges2
+import OpusProofs.EncSkelRanges4
 /-
   OpusProps.C05Ranges — property C05, slice `Ranges`: "no 32-bit overflow" in the integer budget arithmetic of the
   encoder.  The C05 skeleton computes with unbounded `Int`; the C code forms the same expressions in `int` /
@@ -75,6 +75,102 @@ theorem equiv_rate_fits (bitrate channels frameRate vbr mode complexity loss : I
    (erTrace_fits bitrate channels frameRate vbr mode complexity loss hb hch hfr hcx hlo).2⟩
 
 example : computeEquivRate 4083200 2 400 0 MODE_SILK_ONLY 10 100 = 3102514 := by decide
+
+/-- `compute_redundancy_bytes` (opus_encoder.c:1081-1107): budget 1..1276 bytes, bit-rate 0..4 083 200, frame rate 8..400,
+    1-2 channels: every intermediate fits; the last trace entry is the model function, in 0..257. -/
+theorem redundancy_bytes_fits (m br fr ch : Int) (hm : 1 ≤ m ∧ m ≤ 1276) (hb : 0 ≤ br ∧ br ≤ 4083200)
+    (hfr : 8 ≤ fr ∧ fr ≤ 400) (hch : 1 ≤ ch ∧ ch ≤ 2) :
+    (∀ x ∈ rbTrace m br fr ch, Fits32 x) ∧ (rbTrace m br fr ch).getLast? = some (computeRedundancyBytes m br fr ch) ∧
+    0 ≤ computeRedundancyBytes m br fr ch ∧ computeRedundancyBytes m br fr ch ≤ 257 :=
+  ⟨(rbTrace_fits m br fr ch hm hb hfr hch).1, rbTrace_last m br fr ch, (rbTrace_fits m br fr ch hm hb hfr hch).2⟩
+
+example : computeRedundancyBytes 1276 4083200 50 2 = 257 := by decide
+
+/-- `bytes_target` and `total_bitRate` (opus_encoder.c:1867 `st->bitrate_bps * frame_size / (st->Fs * 8)`, :1952
+    `8 * bytes_target * frame_rate`) for the bit-rate the sizing stage leaves (`sizeBudget`, VBR or CBR, AUTO / MAX / explicit):
+    every intermediate fits for every (sub)frame size `e` that is legal, at most the packet's frame size and at most 60 ms
+    (what :1616-1641 hands to `opus_encode_frame_native`), any per-frame budget 1..1276 and redundancy 0..257.
+    Needs `user_bitrate ≤ 300000·channels` — the clamp OPUS_SET_BITRATE really applies (opus_encoder.c:2690); the skeleton's
+    `stOk` (750000·channels, definition in OpusModel/EncSkel/Native.lean, owner C05) is too weak, see
+    `bytes_target_needs_ctl_clamp`. -/
+theorem bytes_target_fits (s : St) (fsz out e m red : Int) (h : stOk s = true)
+    (hu : s.userBitrate ≤ 300000 * s.channels) (hl : legalFrame s.fs fsz = true) (hle : legalFrame s.fs e = true)
+    (he : e ≤ fsz ∧ e ≤ 3 * s.fs / 50) (hout : 1 ≤ out) (hm : 1 ≤ m ∧ m ≤ 1276) (hred : 0 ≤ red ∧ red ≤ 257) :
+    (∀ x ∈ btTrace s.fs e (sizeBudget s fsz out).bitrateBps m red, Fits32 x) ∧
+    -257 ≤ bytesTarget s.fs e (sizeBudget s fsz out).bitrateBps m red ∧
+    bytesTarget s.fs e (sizeBudget s fsz out).bitrateBps m red ≤ 1275 := by
+  have h' := h
+  simp only [stOk, decide_eq_true_eq] at h'
+  obtain ⟨hfs, -⟩ := h'
+  obtain ⟨hpos, -, hc⟩ := legalFrame_cases s.fs e hfs hle
+  obtain ⟨b0, -, b2⟩ := budget_rate_frame s fsz out e h hu hl hout ⟨hpos, he.1, by omega⟩
+  exact btTrace_fits s.fs e _ m red (by omega) ⟨hpos, by omega⟩ ⟨b0, by omega⟩ hm hred
+
+example : ∃ s : St, stOk s = true ∧ s.userBitrate = 300000 * s.channels ∧ legalFrame s.fs 2880 = true ∧
+    (2880 : Int) ≤ 3 * s.fs / 50 ∧ (sizeBudget s 2880 4000).bitrateBps * 2880 = 1728000000 :=
+  ⟨{ (default : St) with fs := 48000, channels := 2, useVbr := 1, userBitrate := 600000, userForcedMode := OPUS_AUTO, userBandwidth := OPUS_AUTO, maxBandwidth := BW_FB, forceChannels := OPUS_AUTO, streamChannels := 2, bandwidth := BW_FB, mode := MODE_SILK_ONLY },
+   by decide, by decide, by decide, by decide, by decide⟩
+
+/-- `max_len_sum` of the multi-frame path (opus_encoder.c:1616-1681: split tests, `enc_frame_size`, `nb_frames`,
+    `max_header_bytes`, `nb_frames + repacketize_len - max_header_bytes`): every intermediate fits under the general condition
+    `out_data_bytes + nb_frames ≤ INT_MAX` (1 ≤ nb_frames ≤ 6, cbr_bytes in -1..1276); the last entry is the skeleton's
+    `maxLenSum`.  Without the condition it does not: `max_len_sum_overflows`. -/
+theorem max_len_sum_fits (s : St) (fsz out cbr : Int) (hfs : 8000 ≤ s.fs ∧ s.fs ≤ 48000)
+    (hnb : 1 ≤ (multiCtx s fsz out cbr).nbFrames ∧ (multiCtx s fsz out cbr).nbFrames ≤ 6)
+    (hout : 1 ≤ out ∧ out + (multiCtx s fsz out cbr).nbFrames ≤ 2147483647) (hcbr : -1 ≤ cbr ∧ cbr ≤ 1276) :
+    (∀ x ∈ mlTrace s fsz out cbr, Fits32 x) ∧
+    (mlTrace s fsz out cbr).getLast? = some (multiCtx s fsz out cbr).maxLenSum :=
+  ⟨mlTrace_fits s fsz out cbr hfs hnb hout hcbr, mlTrace_last s fsz out cbr⟩
+
+/-- … in particular on the property's domain `out_data_bytes ≤ 4000`. -/
+theorem max_len_sum_fits_4000 (s : St) (fsz out cbr : Int) (hfs : 8000 ≤ s.fs ∧ s.fs ≤ 48000)
+    (hnb : 1 ≤ (multiCtx s fsz out cbr).nbFrames ∧ (multiCtx s fsz out cbr).nbFrames ≤ 6)
+    (hout : 1 ≤ out ∧ out ≤ 4000) (hcbr : -1 ≤ cbr ∧ cbr ≤ 1276) :
+    ∀ x ∈ mlTrace s fsz out cbr, Fits32 x :=
+  mlTrace_fits s fsz out cbr hfs hnb ⟨hout.1, by omega⟩ hcbr
+
+example : (multiCtx { (default : St) with fs := 48000, useVbr := 1, mode := MODE_CELT_ONLY } 5760 4000 (-1)).nbFrames = 6 := by
+  decide
+
+/-- `curr_max` of one sub-frame (opus_encoder.c:1709-1716: `3*bitrate_bps/(3*8*Fs/enc_frame_size)`,
+    `max_len_sum/nb_frames`, `max_len_sum - tot_size`): fits for a bit-rate in 0..4 083 200, any `max_len_sum` in 0..INT_MAX and
+    `0 ≤ tot_size ≤ max_len_sum`; the last entry is the skeleton's `currMax`, at most 1276. -/
+theorem curr_max_fits (s : St) (c : MultiCtx) (tot : Int) (hfs : 8000 ≤ s.fs ∧ s.fs ≤ 48000)
+    (hb : 0 ≤ s.bitrateBps ∧ s.bitrateBps ≤ 4083200) (he : 0 < c.encFs ∧ c.encFs ≤ s.fs)
+    (hnb : 1 ≤ c.nbFrames) (hml : 0 ≤ c.maxLenSum ∧ c.maxLenSum ≤ 2147483647) (ht : 0 ≤ tot ∧ tot ≤ c.maxLenSum) :
+    (∀ x ∈ cmTrace s c tot, Fits32 x) ∧ (cmTrace s c tot).getLast? = some (currMax s c tot) ∧ currMax s c tot ≤ 1276 :=
+  ⟨(cmTrace_fits s c tot hfs hb he hnb hml ht).1, cmTrace_last s c tot, (cmTrace_fits s c tot hfs hb he hnb hml ht).2⟩
+
+example : currMax { (default : St) with fs := 48000, bitrateBps := 4083200 } ⟨960, 6, 0, 2147483647⟩ 0 = 1276 := by decide
+
+/-- `frame_size_select` (opus_encoder.c:768-791, after fix 212cbc41): for EVERY `int` frame_size and EVERY `int`
+    variable_duration (Fs in 8000..48000) every value formed up to the first `return` fits — the products `400*new_size` …
+    `25*new_size` are formed only below the guard `new_size > 6*Fs/50`; the last trace entry is the model function, -1..5760. -/
+theorem frame_size_select_fits (f vd fs : Int) (hf : Fits32 f) (hvd : Fits32 vd) (hfs : 8000 ≤ fs ∧ fs ≤ 48000) :
+    (∀ x ∈ fssTrace f vd fs, Fits32 x) ∧ (fssTrace f vd fs).getLast? = some (frameSizeSelect f vd fs) ∧
+    -1 ≤ frameSizeSelect f vd fs ∧ frameSizeSelect f vd fs ≤ 5760 :=
+  ⟨fssTrace_fits f vd fs hf hvd hfs, fssTrace_last f vd fs, fss_ret_fits f vd fs hfs⟩
+
+example : Fits32 2147483647 ∧ frameSizeSelect 2147483647 FRAMESIZE_ARG 48000 = -1 ∧
+    frameSizeSelect 2147483647 FRAMESIZE_120_MS 48000 = 5760 := by decide
+
+/-- Multistream budget (opus_multistream_encoder.c:856-859 `smallest_packet`, :878-888 CBR clamp
+    `3*rate_sum/(3*8*Fs/frame_size)`, :976-986 per-stream `curr_max` and `curr_max*(8*Fs/frame_size)`): 1..255 streams,
+    bit-rate AUTO / MAX / 500..300000·255, `3*rate_sum ≤ INT_MAX` (C05.ms_rate_no_overflow), ANY max_data_bytes in
+    1..INT_MAX, `0 ≤ tot_size ≤` clamped budget: every intermediate fits; the last entry is the skeleton's `msCurrMax`,
+    at most MS_FRAME_TMP = 7662 (so the per-stream `opus_encode_native` never sees a huge out_data_bytes).
+    The rate allocation itself (rate_allocation, after fix 69d56905, up to 255 channels) is C05.ms_rate_no_overflow. -/
+theorem ms_budget_split_fits (vbr br rs nb fs fsz m tot s : Int) (hfs : 8000 ≤ fs ∧ fs ≤ 48000)
+    (hz : 0 < fsz ∧ fsz ≤ fs ∧ fs ≤ 400 * fsz) (hnb : 1 ≤ nb ∧ nb ≤ 255) (hs : 0 ≤ s ∧ s < nb)
+    (hbr : br = OPUS_AUTO ∨ br = OPUS_BITRATE_MAX ∨ (500 ≤ br ∧ br ≤ 76500000)) (hrs : 0 ≤ rs ∧ 3 * rs ≤ 2147483647)
+    (hm : 1 ≤ m ∧ m ≤ 2147483647) (ht : 0 ≤ tot ∧ tot ≤ msMaxBytes vbr br rs nb fs fsz m) :
+    (∀ x ∈ msTrace vbr br rs nb fs fsz m tot s, Fits32 x) ∧
+    (msTrace vbr br rs nb fs fsz m tot s).getLast? = some (msCurrMax nb fs fsz (msMaxBytes vbr br rs nb fs fsz m) tot s) ∧
+    msCurrMax nb fs fsz (msMaxBytes vbr br rs nb fs fsz m) tot s ≤ 7662 :=
+  ⟨(msTrace_fits vbr br rs nb fs fsz m tot s hfs hz hnb hs hbr hrs hm ht).1, msTrace_last vbr br rs nb fs fsz m tot s,
+   (msTrace_fits vbr br rs nb fs fsz m tot s hfs hz hnb hs hbr hrs hm ht).2⟩
+
+example : msCurrMax 255 48000 120 (msMaxBytes 0 76500000 0 255 48000 120 2147483647) 0 254 = 7662 := by decide
 
 /-- Sharpness of the domain (why `stOk`'s bound 750000·channels is NOT enough for `bytes_target`, opus_encoder.c:1867
     `st->bitrate_bps * frame_size`): a state inside `stOk` with 1 500 000 b/s and a 60 ms SILK frame at 48 kHz makes the product
